@@ -98,10 +98,16 @@ Definition facts_b (o : opts) (kn : bool) (tag : N) (added : list (cmdk * N * re
   && forallb (fun p => is_load (ckind p) || Bool.eqb (is_ro (ckind p)) (readonly o)) added
   && (negb kn || forallb (fun p => negb (is_load (ckind p))) added)
   && Bool.eqb kn' (kn || existsb (fun p => is_load (ckind p) && is_ok (crep p)) added)
-  && (negb kn || kn').
+  && (negb kn || kn')
+  (* a non-error reply to EVALSHA, whatever its text, is never followed by EVAL *)
+  && (negb (existsb (fun p => is_sha (ckind p) && is_ok (crep p)) added)
+      || negb (existsb (fun p => cmdk_eqb (ckind p) (eval_cmd o)) added)).
 
 Lemma errk_eqb_refl : forall e, errk_eqb e e = true.
 Proof. destruct e; reflexivity. Qed.
+
+Lemma okind_eqb_refl : forall k, okind_eqb k k = true.
+Proof. destruct k; reflexivity. Qed.
 
 Ltac give_added :=
   first [ exists (@nil (cmdk * N * reply)); split; [rewrite app_nil_r; reflexivity|]
@@ -119,9 +125,9 @@ Lemma exec_facts : forall o x tag, consistent o (known x) = true ->
 Proof.
   intros [[] [] []] [[] [[] rn] env tr] tag; unfold exec, consistent; grind; try discriminate; intros _;
   give_added; unfold facts_b, shape_b, is_cmd, ckind, ctag, crep;
-  cbn [fst snd readonly nosha loadsha negb andb orb forallb existsb is_load is_ro is_ok is_noscript
-       sha_cmd eval_cmd cmdk_eqb reply_eqb errk_eqb Bool.eqb];
-  rewrite ?N.eqb_refl, ?errk_eqb_refl; reflexivity.
+  cbn [fst snd readonly nosha loadsha negb andb orb forallb existsb is_load is_ro is_sha is_ok is_noscript
+       sha_cmd eval_cmd cmdk_eqb reply_eqb errk_eqb okind_eqb Bool.eqb];
+  rewrite ?N.eqb_refl, ?errk_eqb_refl, ?okind_eqb_refl; reflexivity.
 Qed.
 
 (** ---- ExecMulti ---- *)
@@ -185,7 +191,7 @@ Proof.
     destruct (send x CScriptLoad 0) as [x1 r0]. cbn [fst snd] in Hk, Ht, Hr.
     assert (Hrun : runs (server x1) = runs (server x)) by (destruct Hr as [Hr|[_ Hr]]; [exact Hr|discriminate]).
     unfold consistent in Hc. rewrite Hn in Hc. cbn [andb orb negb] in Hc.
-    destruct r0 as [v|e].
+    destruct r0 as [v kd|e].
     + (* loaded *)
       set (x1' := if loadsha o then {| known := true; server := server x1; envq := envq x1; trace := trace x1 |} else x1).
       assert (Hk1 : known x1' = true).
@@ -197,8 +203,8 @@ Proof.
       cbn [andb]. rewrite Hk1.
       pose proof (send_all_spec tags x1' (sha_cmd o)) as [Hl [Hk2 [Ht2 [l [Hr2 Hs]]]]].
       destruct (send_all x1' (sha_cmd o) tags) as [x2 rs]. cbn [fst snd] in *.
-      split; [exact Hl|]. right. exists [(CScriptLoad, 0, ROk v)], (sha_cmd o). split.
-      * right. split; [reflexivity|]. split; [reflexivity|]. split; [congruence|]. exists (ROk v). split; reflexivity.
+      split; [exact Hl|]. right. exists [(CScriptLoad, 0, ROk v kd)], (sha_cmd o). split.
+      * right. split; [reflexivity|]. split; [reflexivity|]. split; [congruence|]. exists (ROk v kd). split; reflexivity.
       * split.
         -- rewrite Ht2, Ht1, Ht, <- app_assoc. reflexivity.
         -- exists l. split; [rewrite Hr2, Hr1, Hrun; reflexivity|exact Hs].
